@@ -42,6 +42,12 @@ CHECKS = {
  "C11": ("model_checking", "TLC model checking of Printer (panic propagation through restorers/catchPanic/nested printers) and Buffer (every rune/byte class in every reachable state) + replay under recover on the real code",
    "Totality of every buffer operation over all reachable states and rune classes; containment, in-place report and restoration after user-method panics at every script position, replayed on the real code under recover with plain and hot payloads.",
    "DESIGN.md 6/C11", "F1, F2 repaired by fix commits; Grow(<0) and memory exhaustion outside the claim"),
+ "C15": ("model_checking", "TLC model checking of the Printer spec (%w bookkeeping in handleMethods: wrapErrs/wrappedErr) over the errorf slice + replay on HelperForErrorf judged by the statement and by fmt.Errorf",
+   "Every format/operand combination of the slice is run through the transcribed %w logic in TLC (invariant: returned error per statement, F4 class aside) and through the real HelperForErrorf, whose returned error identity and text are judged by the statement and cross-checked with fmt.Errorf.",
+   "DESIGN.md 6/C15", "F4/F5 known findings; Go 1.23 fmt.Errorf as cross-check for <=1 %w"),
+ "C17": ("model_checking", "TLC model checking of the Printer spec with HookKind constant (dispatch order in handleMethods) over the hook slice + replay with a recording hook installed in-process",
+   "TLC checks on every case that the hook is invoked exactly for the error operands the statement names (and never under Unsafe); the real hook records (error identity, verb) and the log must equal both the model's and the statement's.",
+   "DESIGN.md 6/C17", "hook functions are the four fixed ones of Printer!HookScript"),
 }
 
 NOT_YET = {
